@@ -63,33 +63,33 @@ def check4 (q : Vec4 α) : Bool := le (abs (q.x0 + q.x1 + q.x2)) (dec 1 4)
 /-! ### the `Miller` object -/
 
 /-- a phase as far as `Miller` looks at it: lattice and an identifier of the point group -/
-structure Phase (α : Type) where
+structure MillerPhase (α : Type) where
   lattice : Lattice α
   pointGroup : Nat
 
 structure Miller (α : Type) where
   data : Vec3 α
   fmt : Fmt
-  phase : Phase α
+  phase : MillerPhase α
 
 namespace Miller
 
 /-- `Miller(xyz=…)` -/
-def ofXyz (v : Vec3 α) (p : Phase α) : Miller α := ⟨v, .xyz, p⟩
+def ofXyz (v : Vec3 α) (p : MillerPhase α) : Miller α := ⟨v, .xyz, p⟩
 /-- `Miller(uvw=…)` -/
-def ofUvw (v : Vec3 α) (p : Phase α) : Miller α := ⟨Mat3.vecMul v p.lattice.base, .uvw, p⟩
+def ofUvw (v : Vec3 α) (p : MillerPhase α) : Miller α := ⟨Mat3.vecMul v p.lattice.base, .uvw, p⟩
 /-- `Miller(hkl=…)` -/
-def ofHkl (v : Vec3 α) (p : Phase α) : Miller α := ⟨Mat3.vecMul v (Mat3.transpose p.lattice.recbase), .hkl, p⟩
+def ofHkl (v : Vec3 α) (p : MillerPhase α) : Miller α := ⟨Mat3.vecMul v (Mat3.transpose p.lattice.recbase), .hkl, p⟩
 /-- `Miller(UVTW=…)`: rejected off the hyperplane `U + V + T = 0` -/
-def ofUVTW (q : Vec4 α) (p : Phase α) : Except MillerErr (Miller α) :=
+def ofUVTW (q : Vec4 α) (p : MillerPhase α) : Except MillerErr (Miller α) :=
   if check4 q then .ok ⟨Mat3.vecMul (UVTW2uvw q) p.lattice.base, .UVTW, p⟩ else .error .value
 /-- `Miller(hkil=…)`: rejected off the hyperplane `h + k + i = 0` -/
-def ofHkil (q : Vec4 α) (p : Phase α) : Except MillerErr (Miller α) :=
+def ofHkil (q : Vec4 α) (p : MillerPhase α) : Except MillerErr (Miller α) :=
   if check4 q then .ok ⟨Mat3.vecMul (hkil2hkl q) (Mat3.transpose p.lattice.recbase), .hkil, p⟩
   else .error .value
 
 /-- constructor by format name and coordinate list (3 or 4 numbers) -/
-def ofCoords (f : Fmt) (xs : List α) (p : Phase α) : Except MillerErr (Miller α) :=
+def ofCoords (f : Fmt) (xs : List α) (p : MillerPhase α) : Except MillerErr (Miller α) :=
   match f, xs with
   | .xyz, [x, y, z] => .ok (ofXyz ⟨x, y, z⟩ p)
   | .uvw, [x, y, z] => .ok (ofUvw ⟨x, y, z⟩ p)
